@@ -98,6 +98,14 @@ func tagging(tags gostatsd.Tags, source gostatsd.Source, orig string) string {
 }
 
 func runSchedule(t *testing.T, tw *trace.Writer, c *scase, idx int, res *vh.Result) {
+	defer func() {
+		// goroutines of the stage (or of the driver, waiting for it) that stay blocked for ever make the bubble panic on exit; the
+		// trace written so far is still judged: what they should have delivered shows up there as never delivered
+		if x := recover(); x != nil {
+			res.Note("case %d: %v", idx, x)
+			res.Hit("goroutines-left-blocked")
+		}
+	}()
 	synctest.Test(t, func(t *testing.T) {
 		ctx, cancel := context.WithCancel(context.Background())
 		ci := &cache{known: map[gostatsd.Source]*gostatsd.Instance{}, sink: make(chan gostatsd.Source), info: make(chan gostatsd.InstanceInfo)}
@@ -137,6 +145,14 @@ func runSchedule(t *testing.T, tw *trace.Writer, c *scase, idx int, res *vh.Resu
 			}
 			mm.Counters.Each(func(n, _ string, c gostatsd.Counter) {
 				o := orig(c.Tags)
+				if strings.HasPrefix(n, "n") { // the batch's datapoint without tags of its own: its origin is known by its name
+					mu.Lock()
+					o = batches["i"+n[1:]].src
+					mu.Unlock()
+					gr := g(o)
+					gr.tag[tagging(c.Tags, c.Source, o)] = true
+					return
+				}
 				gr := g(o)
 				gr.tag[tagging(c.Tags, c.Source, o)] = true
 				if strings.HasPrefix(n, "u") {
@@ -244,6 +260,14 @@ func runSchedule(t *testing.T, tw *trace.Writer, c *scase, idx int, res *vh.Resu
 			for _, e := range evs {
 				tw.Emit(e)
 			}
+			// what was handed on belongs to the next handler now, and the real one (the tag stage) edits tag slices in place: so does this one
+			scribble := func(t gostatsd.Tags) {
+				for i := range t {
+					t[i] = "scribbled:by-the-next-handler"
+				}
+			}
+			mm.Counters.Each(func(_, _ string, v gostatsd.Counter) { scribble(v.Tags) })
+			mm.Gauges.Each(func(_, _ string, v gostatsd.Gauge) { scribble(v.Tags) })
 		}
 		down.OnEv = func(e *gostatsd.Event) { origOnEv(e); waitGate() }
 		n := 0
@@ -312,6 +336,7 @@ func runSchedule(t *testing.T, tw *trace.Writer, c *scase, idx int, res *vh.Resu
 					mm.Receive(&gostatsd.Metric{Name: fmt.Sprintf("u%d", n), Type: gostatsd.COUNTER, Value: 1, Rate: 1, Tags: tags.Copy(), Source: src, Timestamp: ts})
 					mm.Receive(&gostatsd.Metric{Name: "sh", Type: gostatsd.COUNTER, Value: float64(w), Rate: 1, Tags: tags.Copy(), Source: src, Timestamp: ts})
 					mm.Receive(&gostatsd.Metric{Name: "g", Type: gostatsd.GAUGE, Value: gaugeSeq, Rate: 1, Tags: tags.Copy(), Source: src, Timestamp: ts})
+					mm.Receive(&gostatsd.Metric{Name: fmt.Sprintf("n%d", n), Type: gostatsd.COUNTER, Value: 1, Rate: 1, Source: src, Timestamp: ts}) // no tags of its own
 					ev := map[string]any{"ev": "enter", "ids": []string{id}, "src": sn, "kind": "m", "hit": ci.hit(src)}
 					if s.Op == "mall" && ci.hit(src) == "miss" {
 						late = append(late, ev)
